@@ -628,3 +628,30 @@ Proof.
   apply (replay_eq_cascade_lemma u dflt k orc (spec_ops P)).
   exact (WalkParP.walk_par_safety P par pcap Hwf Hpar Hpcap s0 Hinit l).
 Qed.
+
+(* ---- a concrete instance (for the non-vacuity example of Properties/C02.v) ---------- *)
+
+(* generic pyramid of depth 2, two workers, pipe capacity 1: the callbacks of
+   (1,0,0) and (1,1,0) overlap and end in the opposite order *)
+Definition glue_ex_schedule : list wact :=
+  [DPut; DPut; DPut; DPut; FFlushReady; KRecv 0; FFlushReady; KRecv 1; KCb 1; KCb 0; KPut 1; KPut 0;
+   FFlushDone 1; DRecv; FFlushDone 0; DRecv; FFlushReady; KRecv 0; FFlushReady; KRecv 1; KCb 0; KCb 1;
+   KPut 0; KPut 1; FFlushDone 0; DRecv; FFlushDone 1; DRecv; DPut; FFlushReady; KRecv 0; KCb 0; KPut 0;
+   FFlushDone 0; DRecv; DCloseQ; FFeederExit; DJoinThread; DSetFlag;
+   KTimeout 0; KIsSet 0; KExit 0; KTimeout 1; KIsSet 1; KExit 1; DJoinW 0; DJoinW 1].
+
+Definition glue_ex_st0 : store :=
+  fun p f => if fmt_eqb f Fits && pos_eqb p (mkPos 2 1 2) then Some (FExact (ex_tile 0)) else None.
+
+Lemma glue_ex_hyps :
+  upper_levels_empty Fits glue_ex_st0 2 /\
+  (forall q, pn q = 2%nat -> glue_ex_st0 q Fits <> None -> valid q = true).
+Proof.
+  split.
+  - intros p Hp. unfold glue_ex_st0. cbn [fmt_eqb andb].
+    destruct (pos_eqb p (mkPos 2 1 2)) eqn:E; [|reflexivity].
+    apply pos_eqb_eq in E. subst p. cbn [pn] in Hp. lia.
+  - intros q _ H. unfold glue_ex_st0 in H. cbn [fmt_eqb andb] in H.
+    destruct (pos_eqb q (mkPos 2 1 2)) eqn:E; [|contradiction].
+    apply pos_eqb_eq in E. subst q. reflexivity.
+Qed.
